@@ -8,12 +8,14 @@ the "Type parsers" of `parser.rs` and of the type printer of `format.rs`; lemmas
                                                     the left-factored grammar (repair of C18-F1) is
                                                     the same function as the old alternative order
   parseType_total, parseBaseType_total, typeAlias_total     (T1) totality + progress + located errors
+  parseType_wf, parseTypeF_wf, parseBaseType_wf, typeAlias_wf   parser outputs satisfy WFType
   RoundTripStatement (full), roundtrip_partial             (T2) parse (print t ++ rest) = (t, rest)
   d3_dea6b02_only_rule_breaks_roundtrip                     the dea6b02-only printing rule breaks T2 (D3)
   d1_old_print_rule_breaks_roundtrip                        the pre-dea6b02 printing rule breaks T2
   PrintIdempotentStatement, print_idempotent_partial        (T3)
 -/
 import QuiverModel.Lemmas.Parse.Factored
+import QuiverModel.Lemmas.Parse.WF
 import QuiverModel.Lemmas.Text.Basic
 namespace C18Types
 open QM.Parse QM.Text
@@ -150,6 +152,51 @@ theorem typeAlias_total (i : Str) :
     obtain ⟨pre, hpre⟩ := hs
     exact Or.inr ⟨pos, code, pre, rfl, hpre.symm, by rw [← hpre, utf8Len_append]⟩
   | out => exact absurd h (hno i (Nat.lt_succ_self _))
+
+/-! ## Everything the parser returns is well-formed -/
+
+/-- **parseType_wf**: every type AST returned by `type_definition` — on any input, with any
+    remainder — satisfies the decidable well-formedness predicate `WFType` that the round-trip
+    statement assumes (names are in the lexer's languages, unions/intersections have ≥ 2 members, an
+    unnamed partial type is empty or has a named field, an `'alias[...]` tuple has a spread and no
+    bare one, `^N` fits a `usize`, a module path is not empty). -/
+theorem parseType_wf (i : Str) (t : Ty) (rest : Str) (h : parseType i = .ok t rest) : WFType t :=
+  (knot_wf (i.length + 1)).1 i t rest h
+
+/-- the same for the left-factored grammar (the code since 33df1c7) and for `base_type` -/
+theorem parseTypeF_wf (i : Str) (t : Ty) (rest : Str) (h : parseTypeF i = .ok t rest) : WFType t :=
+  parseType_wf i t rest (by rw [← partial_or_group_factored_eq]; exact h)
+
+theorem parseBaseType_wf (i : Str) (t : Ty) (rest : Str) (h : parseBaseType i = .ok t rest) :
+    WFType t := (knot_wf (i.length + 1)).2 i t rest h
+
+/-- **typeAlias_wf**: an alias statement the parser returns is well-formed as a whole (name and
+    parameters are identifiers, the type is `WFType`). -/
+theorem typeAlias_wf (i : Str) (a : Alias) (rest : Str) (h : typeAlias i = .ok a rest) :
+    a.wf = true := by
+  have hpt : Post WFp parseTypeF := fun j t r e => parseTypeF_wf j t r e
+  have : Post (fun a : Alias => a.wf = true) typeAlias := by
+    unfold typeAlias
+    refine Post.bind (Post.seq (Post.opt Post.identifier)) (fun name hname =>
+      Post.bind (Post.opt (Post.delimited (Post.sepList1 Post.typeName))) (fun ps hps =>
+        Post.seq (Post.pmap hpt ?_)))
+    intro t ht
+    show (Alias.mk name (ps.getD []) t).wf = true
+    simp only [Alias.wf, Bool.and_eq_true]
+    refine ⟨⟨?_, ?_⟩, ht⟩
+    · cases name with
+      | none => rfl
+      | some n => exact hname n rfl
+    · cases ps with
+      | none => rfl
+      | some l => exact all_of_mem (hps l rfl).2
+  exact this i a rest h
+
+example : (match parseType "Cons['t, ^] | Nil , x".toList with
+    | .ok (.union [.tuple (some ['C', 'o', 'n', 's']) [_, .field none (.cycle none)] false, _]) _ => true
+    | _ => false) = true := by decide +kernel
+example (t : Ty) (rest : Str) (h : parseType "Cons['t, ^] | Nil , x".toList = .ok t rest) : WFType t :=
+  parseType_wf _ t rest h
 
 /-! ## (T2) round trip
 
